@@ -12,7 +12,7 @@ def skeleton2(rnd, allsoft, symbolic=5):
     """Second-generation Maven skeleton: 3-4 artifacts, two slots per version, four on the root, classifier variants."""
     np = rnd.choice([3, 4, 4])
     p = {"allsoft": allsoft, "mgt": 0, "mgtr": 0, "mgtc": 1, "np": np}
-    kinds = [0, 0, 0, 1, 2, 3, 4] if allsoft else [0, 0, 0, 1, 2, 3, 4, 5, 6, 6]
+    kinds = [0, 0, 0, 1, 2, 3, 4, 7] if allsoft else [0, 0, 0, 1, 2, 3, 4, 5, 6, 6, 7]
     reqs = [0, 1, 6] if allsoft else [0, 0, 1, 2, 3, 4, 4, 5, 6]
 
     def slot(tag, t):
@@ -47,6 +47,39 @@ def skeleton2(rnd, allsoft, symbolic=5):
             left -= 1
         else:
             p[tag + "c"] = rnd.choice([1, 2, 3])
+    return p
+
+
+def directed_explicit_jar(rnd):
+    """Directed family: one artifact declared once without a type and once with the default type jar spelled
+    out, at different versions and different depths (optionally managed by the root with the type spelled out)."""
+    p = skeleton2(rnd, 1)
+    for k in list(p):
+        if k.endswith("t") and (k.startswith("p") or k.startswith("r")):
+            p[k] = 0
+    np = rnd.choice([3, 4])
+    p.update({"np": np, "allsoft": 1, "mgt": 0})
+    roles = rnd.sample(list(range(1, np + 1)), 3)
+    A, B, X = roles
+
+    def put(tag, t, kind=0, x=0, c=1, r=0):
+        p.update({tag + "t": t, tag + "k": kind, tag + "x": x, tag + "c": c, tag + "r": r})
+    jar_near = rnd.random() < 0.5
+    for x in (A, B):
+        p["nv%d" % (x - 1)] = 1
+        p["mj%d0" % (x - 1)] = 1
+    p["nv%d" % (X - 1)] = 2
+    p["mj%d0" % (X - 1)], p["mj%d1" % (X - 1)] = 1, 2
+    shape = rnd.choice([0, 1])
+    if shape == 0:   # root -> X (v1), root -> A; A -> X (v2): one of the two declarations spells out jar
+        put("r0", X, 7 if jar_near else 0, 0, 1)
+        put("r1", A, 0, 0, 1)
+        put("p%d0s0" % (A - 1), X, 0 if jar_near else 7, 0, 2)
+    else:            # root -> A, B; A -> X v1; B -> X v2
+        put("r0", A, 0, 0, 1)
+        put("r1", B, 0, 0, 1)
+        put("p%d0s0" % (A - 1), X, 7 if jar_near else 0, 0, rnd.choice([0, 1]))
+        put("p%d0s0" % (B - 1), X, 0 if jar_near else 7, 0, 2)
     return p
 
 
@@ -163,6 +196,8 @@ def run(tier):
         jobs.append(dict(rbase, harness="VerifC07Resolve2", params=skeleton2(rnd2, 1 if i % 3 == 0 else 0)))
     for i in range(30 if q else 300):
         jobs.append(dict(rbase, harness="VerifC07Resolve2", params=directed_sibling_exclusion(rnd2)))
+    for i in range(16 if q else 160):
+        jobs.append(dict(rbase, harness="VerifC07Resolve2", params=directed_explicit_jar(rnd2)))
     lemmas = [j for j in jobs if not j["harness"].startswith("VerifC07Resolve")]
     whole = [j for j in jobs if j["harness"].startswith("VerifC07Resolve")]
     # two overlays: a change to /repo that stops the unit-lemma harness from compiling (it names unexported helpers)
